@@ -115,13 +115,19 @@ func (x *Exec) BuildReplay(inst Instance, m *Model, id string) *ReplayJob {
 		}
 	}
 	// seeds: pairs of fastrand draws (first of each pair is non-zero by assumption)
+	derived := map[string][]uint64{}
+	defer func() {
+		for k, v := range derived {
+			j.Inputs[k] = v
+		}
+	}()
 	for key, vs := range j.Inputs {
 		if key == "fastrand" || strings.HasPrefix(key, "fastrand@") {
 			var seeds []uint64
 			for i := 0; i+1 < len(vs); i += 2 {
 				seeds = append(seeds, vs[i]<<32|vs[i+1])
 			}
-			j.Inputs["seed"+strings.TrimPrefix(key, "fastrand")] = seeds
+			derived["makeseed"+strings.TrimPrefix(key, "fastrand")] = seeds
 		}
 	}
 	for id, s := range x.strByID {
